@@ -428,10 +428,10 @@ class Interp(OpsMixin, BuiltinsMixin):
                 self.origin_of[id(v)] = "%s.%s" % (cls.qualname, k)
                 self.mark_static(v, "%s.%s" % (cls.qualname, k))
         if cls.metaclass is not None and isinstance(cls.metaclass, ClassVal):
-            cls.injected = self.metaclass_injections(cls.metaclass)
+            cls.injected = self.metaclass_injections(cls.metaclass, owner=cls)
         self.bind_name(s.name, cls, frame)
 
-    def metaclass_injections(self, meta, seen=None):
+    def metaclass_injections(self, meta, seen=None, owner=None):
         """names the metaclass' __new__ adds through attributes.update({...}) --
         read from the metaclass source (DESIGN 2.1)"""
         seen = seen if seen is not None else set()
@@ -439,9 +439,8 @@ class Interp(OpsMixin, BuiltinsMixin):
         if meta in seen or not isinstance(meta, ClassVal):
             return out
         seen.add(meta)
-        cache = getattr(meta, "_inj_cache", None)
-        if cache is not None:
-            return cache
+        # (python runs the metaclass' __new__ once per class it creates: every class gets its *own* exception classes,
+        # equal in name only)
         for c in meta.mro():
             new = c.attrs.get("__new__")
             if not isinstance(new, FuncVal):
@@ -461,8 +460,8 @@ class Interp(OpsMixin, BuiltinsMixin):
                             bases = [self.eval(b, fr) for b in cd.bases]
                             ec = ClassVal(cd.name, c.module, bases, node=cd)
                             ec.qualname = "%s:%s.%s" % (c.module.name, c.name, cd.name)
+                            ec.injected_into = owner
                             out[k.value] = ec
-        meta._inj_cache = out
         return out
 
     def st_Return(self, s, frame):
